@@ -215,6 +215,7 @@ def run(ctx):
     ctx.cov["roundtrip_outcomes"] = {c: sum(1 for r in rows if r["kind"] == "value" and r.get("parsed", {}).get("c") == c) for c in ("ok", "err", "panic", "nilnil")}
     ctx.cov["model_mismatches"] = len(bad)
     ctx.cov["second_pass"] = second[0] if second else None
+    ctx.cov["long_values"] = sum(1 for r in big if r["kind"] == "value")
     ctx.cov["largest_graph_text_bytes"] = max([r.get("textlen", 0) for r in rows if r["kind"] == "graph"] + [0])
     ctx.cov["failures_in_known_classes"] = {k: len(v) for k, v in explained.items()}
     ctx.cov["property_failures_unexplained"] = len(unexplained)
